@@ -1124,7 +1124,7 @@ func c04Family(symptom, why, form string, e *pexpr, shown string) string {
 			return "repeat-empty-typed-by-right-operand"
 		case "variable-with-empty-literal":
 			return "combine-not-strictest"
-		case "concat-nested-empties":
+		case "concat-nested-empties", "operands-empty-constant", "operands-empty-empty", "operands-empty-variable":
 			return "concat-left-biased-type"
 		}
 	}
@@ -1212,6 +1212,7 @@ func c04Corpus(r *Result, model, spec *Model) {
 		{"combine-drops-fixed", "x := [1]\narr := [[2] x [\"a\"]]\nprint arr\n", "wrapany-panic:combine-dropped-fixed"},
 		{"empty-repetition", "x := [] * 3\ny := x + 1\nprint y\n", "repeat-empty-typed-by-right-operand"},
 		{"concat-into-any-array", "a:[]any\na = [1] + [2]\nprint a\n", "wrapany-panic:convertible-nonliteral"},
+		{"call-result-into-any-array", "func f:[]num\n    return [1]\nend\na:[]any\na = f\nprint a\n", "wrapany-panic:convertible-nonliteral"},
 		{"slice-of-empty-declared", "x := [][:]\nprint x\n", "wrapany-panic:untyped-empty-nonliteral"},
 		{"typeof-group-slice-empty", "print (typeof ([][:]))\n", "group-infer-panic"},
 	}
